@@ -235,6 +235,16 @@ def calling_fails(ctx, case):
     except Exception as ex:
         return 'calling-exception-%s: nthderiv.%s with an out argument raised %s' % (case['fn'], case['fn'], type(ex).__name__)
     ok = lambda u, w: np.allclose(u, w, rtol=1e-12, atol=1e-300, equal_nan=True)
+    # the point given as a plain Python float / a NumPy scalar / a 0-d array: the value of the one-element array call
+    for sc, lab in ((float(xs[0]), 'Python float'), (np.float64(xs[0]), 'numpy.float64'), (np.array(xs[0]), '0-d array')):
+        try:
+            with np.errstate(all='ignore'):
+                vs_ = np.asarray(_call(case, sc, n), dtype=float)
+        except Exception as ex:
+            return 'calling-scalar-exception-%s: nthderiv.%s raised %s for the point given as a %s (n=%d); the array call works' % (
+                case['fn'], case['fn'], type(ex).__name__, lab, n)
+        if vs_.size != 1 or not ok(vs_.ravel(), a.ravel()[:1]):
+            return 'calling-scalar-%s: nthderiv.%s with the point given as a %s differs from the array call (n=%d)' % (case['fn'], case['fn'], lab, n)
     # integer-valued points of the domain given as an integer array: the same values as for the float array
     ipts = np.array([k for k in (1, 2, 3, -1, -2, 0) if _in_dom(dom, k)][:3])
     if ipts.size and not (case['fn'] == 'reciprocal' and n == 0):      # numpy.reciprocal itself truncates on integer arrays
@@ -372,6 +382,16 @@ def run(ctx):
                 ctx.evaluations += 1
                 ctx.count('fn=' + name, 'scaled-point')
                 f = scaled_point_fails(ctx, case)
+                if f:
+                    ctx.report(case, 'failure', f)
+    # sin / cos far from the origin (NumPy reduces large arguments exactly; the n-th derivative is +-sin / +-cos of the SAME point)
+    for name in ('sin', 'cos'):
+        for x_ in (1e10, -3e12, 1e16, 2.0 ** 60, 1e17):
+            for n_ in (1, 2, 3, 4, 5):
+                case = {'fn': name, 'n': n_, 'x': float(x_)}
+                ctx.evaluations += 1
+                ctx.count('fn=' + name, 'large-argument')
+                f = run_case(ctx, case)
                 if f:
                     ctx.report(case, 'failure', f)
     n = len(names) * (10 if ctx.tier == 'quick' else 150)
